@@ -1,5 +1,6 @@
 import MdkVerif.Model.Client
 import MdkVerif.Proofs.Client
+import MdkVerif.Proofs.Store
 /-
   C08 — The stored group record always mirrors the MLS state.
   `Inv c`: the record (epoch, name, description, admins, relays, nostr group id) equals what the client's MLS
@@ -239,5 +240,215 @@ theorem sync_inv (id : Nat) (p : Bool) (r : Nat) (ms as : List Nat) (name : Nat)
       | clear => exact inv_clear c h
       | restart => exact inv_restart c h
   exact (this ops _ (inv_init id p r ms as name)).1
+
+/-! ## routing: incoming events are looked up by the nostr group id IN FORCE
+
+  `process_message` finds the group by the event's `h` tag (`find_group_by_nostr_group_id`); with one group held
+  that is `routes c e`: the tag equals the id in the stored record now.  The record's id follows the MLS state
+  (`sync_inv`), so it changes when a rotation commit is applied, comes back when a rollback restores the snapshot
+  taken before it, and survives a restart. -/
+
+theorem routes_def (c : Cl) (e : Ev) : routes c e = true ↔ (c.hasGroup = true ∧ e.tag = c.g.recNid) := by
+  simp [routes]
+
+/-- no Failed / EpochInvalidated record blocks the event at the dedup step -/
+def NotBlocked (c : Cl) (e : Ev) : Prop := ∀ r, getRec c e.n = some r → r.state ≠ 3 ∧ r.state ≠ 4
+
+theorem notBlocked_of_none (c : Cl) (e : Ev) (h : getRec c e.n = none) : NotBlocked c e := by
+  intro r hr; rw [h] at hr; cases hr
+
+theorem deliverOnce_notBlocked (retry : Cl → Option (Cl × Res)) (nx : Nat) (c : Cl) (e : Ev) (h : NotBlocked c e) :
+    deliverOnce retry nx c e = step1 retry nx c e := by
+  unfold deliverOnce
+  cases hr : getRec c e.n with
+  | none => rfl
+  | some r =>
+    obtain ⟨h3, h4⟩ := h r hr
+    simp [h3, h4]
+
+theorem ownMessage_ne_gnf (c : Cl) (e : Ev) : (ownMessage c e).2 ≠ .err eGroupNotFound := by
+  unfold ownMessage
+  repeat' split
+  all_goals simp [eMessage, eGroupNotFound, returnOwnCommit]
+
+theorem notBetterResult_ne_gnf (c : Cl) (e : Ev) : (notBetterResult c e).2 ≠ .err eGroupNotFound := by
+  unfold notBetterResult
+  repeat' split
+  all_goals simp [returnOwnCommit, failUnprocessable]
+
+/-- one pass past the group lookup, with no rollback triggered, never reports GroupNotFound -/
+theorem step1_routed_ne_gnf (retry : Cl → Option (Cl × Res)) (nx : Nat) (c : Cl) (e : Ev)
+    (hr : routes c e = true) (hnb : isBetter c (epochOf e.path) e = false) :
+    (step1 retry nx c e).2 ≠ .err eGroupNotFound := by
+  unfold step1
+  simp only [hr, Bool.not_true, Bool.false_eq_true, if_false]
+  split
+  · simp [eMessage, eGroupNotFound]
+  · split
+    · -- commit
+      split
+      · unfold wrongEpochCommit
+        simp only [withSecret_isBetter, hnb, Bool.false_eq_true, if_false]
+        exact notBetterResult_ne_gnf _ e
+      · split
+        · split
+          · simp
+          · exact ownMessage_ne_gnf _ e
+        · split
+          · simp [failUnprocessable]
+          · unfold processCommit
+            split <;> simp [eNonAdmin, eGroupNotFound]
+    · -- leave
+      split
+      · simp [failUnprocessable]
+      · split
+        · exact ownMessage_ne_gnf _ e
+        · split
+          · simp [failUnprocessable]
+          · split <;> simp
+    · -- app
+      split
+      · simp [failUnprocessable]
+      · split
+        · simp [failUnprocessable]
+        · split
+          · exact ownMessage_ne_gnf _ e
+          · split
+            · simp [failUnprocessable]
+            · simp [storeApp]
+
+/-- **routes_iff_current_id**.  For every client state, event and fuel, an event that is not blocked by its
+    dedup record is looked up by its `h` tag:
+    * tag ≠ the id in force (or no group held): the call returns `GroupNotFound` and changes NOTHING but the
+      failure record — which carries neither group id nor epoch;
+    * tag = the id in force: the call gets past the lookup — it never returns `GroupNotFound`, provided the event
+      does not trigger a rollback (`isBetter … = false`; without that the statement is false of the code:
+      `routed_full_false`, finding `retagged-commit-rollback`). -/
+theorem routes_iff_current_id (fuel nx : Nat) (c : Cl) (e : Ev) (hb : NotBlocked c e) :
+    (routes c e = false → deliverN fuel nx c e = (recordFailure c e.n false none, .err eGroupNotFound)) ∧
+    (routes c e = true → isBetter c (epochOf e.path) e = false → (deliverN fuel nx c e).2 ≠ .err eGroupNotFound) := by
+  constructor
+  · intro hr
+    cases fuel <;> simp only [deliverN] <;> rw [deliverOnce_notBlocked _ nx c e hb] <;> unfold step1 <;> simp [hr]
+  · intro hr hnb
+    cases fuel <;> simp only [deliverN] <;> rw [deliverOnce_notBlocked _ nx c e hb] <;>
+      exact step1_routed_ne_gnf _ nx c e hr hnb
+
+/-- … and a blocked event is answered from its record alone; which answer tells whether its tag is in force -/
+theorem blocked_result (fuel nx : Nat) (c : Cl) (e : Ev) (r : Rec) (h : getRec c e.n = some r) (hs : r.state = 3 ∨ r.state = 4) :
+    deliverN fuel nx c e = (c, if routes c e then .unprocessable else .previouslyFailed) := by
+  cases fuel <;> simp only [deliverN, deliverOnce, h] <;> rcases hs with hs | hs <;> simp [hs]
+
+/-- the unrouted event leaves the projection (and everything but its record) alone -/
+theorem unrouted_frame (fuel nx : Nat) (c : Cl) (e : Ev) (hb : NotBlocked c e) (hr : routes c e = false) :
+    proj (deliverN fuel nx c e).1 = proj c ∧ (deliverN fuel nx c e).1.g = c.g ∧ (deliverN fuel nx c e).1.mgr = c.mgr ∧
+    getRec (deliverN fuel nx c e).1 e.n =
+      some { state := 3, epoch := (getRec c e.n).bind (·.epoch), hasGroup := ((getRec c e.n).map (·.hasGroup)).getD false, mid := (getRec c e.n).bind (·.mid) } := by
+  rw [(routes_iff_current_id fuel nx c e hb).1 hr]
+  refine ⟨rfl, rfl, rfl, ?_⟩
+  simp [recordFailure, setRec, getRec, Store.alookup_ainsert_self]
+
+theorem findIdx_some (q : List Snap) (ep i : Nat) (h : findIdx q ep = some i) :
+    ∃ s rest, q.drop i = s :: rest ∧ s.epoch = ep := by
+  induction q generalizing i with
+  | nil => simp [findIdx] at h
+  | cons x t ih =>
+    by_cases hx : (x.epoch == ep) = true
+    · simp only [findIdx, hx, if_true, Option.some.injEq] at h
+      subst h
+      exact ⟨x, t, rfl, by simpa using hx⟩
+    · have hx' : (x.epoch == ep) = false := by simpa using hx
+      simp only [findIdx, hx', Bool.false_eq_true, if_false] at h
+      cases hj : findIdx t ep with
+      | none => simp [hj] at h
+      | some j =>
+        simp only [hj, Option.map_some, Option.some.injEq] at h
+        subst h
+        obtain ⟨s, rest, hd, hs⟩ := ih j hj
+        exact ⟨s, rest, by simpa using hd, hs⟩
+
+/-- **rollback_restores_routing**: a rollback to epoch `ep` puts back the group state saved in the snapshot of
+    `ep` — record included — so from then on events are routed by the id that snapshot holds (the id that was in
+    force when the commit leaving `ep` was applied), whatever id was in force before the rollback -/
+theorem rollback_restores_routing (c c1 : Cl) (ep : Nat) (h : rollbackTo c ep = some c1) :
+    ∃ s ∈ c.mgr, s.epoch = ep ∧ c1.g = s.saved ∧ c1.hasGroup = c.hasGroup ∧
+      ∀ e, routes c1 e = (c.hasGroup && e.tag == s.saved.recNid) := by
+  unfold rollbackTo at h
+  cases hi : findIdx c.mgr ep with
+  | none => simp [hi] at h
+  | some i =>
+    obtain ⟨s, rest, hd, hs⟩ := findIdx_some c.mgr ep i hi
+    simp only [hi, hd, Option.some.injEq] at h
+    subst h
+    exact ⟨s, List.mem_of_mem_drop (by rw [hd]; exact List.mem_cons_self), hs, rfl, rfl, fun e => rfl⟩
+
+/-- **restart_keeps_routing**: reopening the database changes neither the id in force nor, therefore, which
+    events are routed -/
+theorem restart_keeps_routing (c : Cl) (e : Ev) :
+    (restart c).1.g.recNid = c.g.recNid ∧ routes (restart c).1 e = routes c e := by
+  unfold restart; split <;> exact ⟨rfl, rfl⟩
+
+/-- applying a commit moves the id in force to the commit's (`setData`) or keeps it (anything else) -/
+theorem processCommit_routing (c : Cl) (e : Ev) (b : Body) (sw : List Nat) (hk : e.kind = .commit b sw)
+    (ha : (isAdmin c.g e.sender || isPureSelfUpdate b sw) = true) :
+    (processCommit c e b sw).1.g.recNid = (match b with | .setData d => d.nid | _ => c.g.nid) := by
+  unfold processCommit
+  simp only [ha, Bool.not_true, Bool.false_eq_true, if_false]
+  have hd := ensureSecret_data (mergeCommit c.maxPast (mgrCreate c (epochOf c.g.path) e).g e)
+  simp only [setRec, syncRec, hd.2.2.1]
+  cases b <;> simp [mergeCommit, hk, applyBody, mgrCreate]
+
+/-! ### closed witnesses (replayed on the implementation: corpus/C08/rotation_in_flight.trace,
+    corpus/C06/retagged_commit_rollback.trace) -/
+
+def wc0 : Cl := initCl 2 false 5 [0, 1, 2] [0, 1] 1
+/-- admin 0 rotates the id 0 → 8 -/
+def wRot : Ev := { n := 1, ts := 20, idnum := 5, cipher := 1, sender := 0, path := [], kind := .commit (.setData { initData [0, 1] 1 with nid := 8 }) [] }
+/-- a message of member 1 sent BEFORE the rotation (state `[]`, tag 0) … -/
+def wOld : Ev := { n := 2, ts := 15, idnum := 3, cipher := 2, sender := 1, path := [], kind := .app 0 101 1 }
+/-- … and one sent after it (state `[1]`, tag 8) -/
+def wNew : Ev := { n := 3, ts := 25, idnum := 4, cipher := 3, sender := 1, path := [1], kind := .app 1 102 2, tag := 8 }
+/-- member 1's sibling of the rotation commit, earlier wrapper timestamp, re-published under the NEW id 8 -/
+def wSibRetag : Ev := { n := 4, ts := 19, idnum := 9, cipher := 4, sender := 1, path := [], kind := .commit .selfUpdate [], tag := 8 }
+def wOld2 : Ev := { wOld with n := 5, cipher := 5, kind := .app 2 103 3 }
+
+/-- `h-rotation-in-flight`: after the rotation commit the in-flight message under the old id is not routed:
+    GroupNotFound, a Failed record without group and epoch, PreviouslyFailed on every later offer; the message
+    published under the new id is processed -/
+theorem witness_rotation_in_flight :
+    let c1 := (deliver wc0 wRot 0).1
+    c1.g.recNid = 8 ∧ (deliver c1 wOld 0).2 = .err eGroupNotFound ∧
+    getRec (deliver c1 wOld 0).1 2 = some { state := 3, epoch := none, hasGroup := false, mid := none } ∧
+    (deliver (deliver c1 wOld 0).1 wOld 0).2 = .previouslyFailed ∧ (deliver c1 wOld 0).1.msgs = [] ∧
+    (deliver c1 wNew 0).2 = .app 1 ∧
+    -- before the rotation commit the same message is routed and stored
+    (deliver wc0 wOld 0).2 = .app 0 := by decide
+
+/-- routing follows a ROLLBACK: the retagged better sibling makes the client roll back to the snapshot taken
+    before the rotation; the id in force is 0 again: an event under 0 is processed, one under 8 no longer is.
+    (The retagged sibling itself is looked up again after the rollback — under the restored id — and refused:
+    a routed event that ends in GroupNotFound, and a refusal with an effect: `retagged-commit-rollback`.) -/
+theorem witness_rollback_restores_routing :
+    let c1 := (deliver wc0 wRot 0).1
+    let c2 := (deliver c1 wSibRetag 0).1
+    routes c1 wSibRetag = true ∧ (deliver c1 wSibRetag 0).2 = .err eGroupNotFound ∧
+    c2.g.path = [] ∧ c2.g.recNid = 0 ∧ c2.mgr = [] ∧
+    (deliver c2 wOld2 0).2 = .app 2 ∧ (deliver c2 wNew 0).2 = .err eGroupNotFound ∧
+    (deliver c2 wRot 0).2 = .unprocessable := by decide
+
+/-- the statement of `routes_iff_current_id` without the no-rollback hypothesis -/
+def routed_full : Prop :=
+  ∀ (c : Cl) (e : Ev) (nx : Nat), NotBlocked c e → routes c e = true → (deliver c e nx).2 ≠ .err eGroupNotFound
+
+theorem routed_full_false : ¬ routed_full := by
+  intro h
+  have := h (deliver wc0 wRot 0).1 wSibRetag 0 (notBlocked_of_none _ _ (by decide)) (by decide)
+  revert this; decide
+
+/-- non-vacuity of `routes_iff_current_id`: both cases occur -/
+example : NotBlocked (deliver wc0 wRot 0).1 wOld ∧ routes (deliver wc0 wRot 0).1 wOld = false ∧
+    NotBlocked (deliver wc0 wRot 0).1 wNew ∧ routes (deliver wc0 wRot 0).1 wNew = true ∧
+    isBetter (deliver wc0 wRot 0).1 (epochOf wNew.path) wNew = false := by
+  exact ⟨notBlocked_of_none _ _ (by decide), by decide, notBlocked_of_none _ _ (by decide), by decide, by decide⟩
 
 end MdkVerif.Props.C08
